@@ -11,7 +11,7 @@ from fiddle._src import daglish
 from harness import common, l2, c02
 from harness.common import Failure, Result, Stream
 
-COQ_TARGETS = ["theories/C06Check.vo", "theories/Anchors.vo"]
+COQ_TARGETS = ["theories/C06Check.vo"]
 TRUSTED_BASE = ["Python == on leaves is modelled as: bool is an int, everything else equal only to itself "
                 "(the generator avoids integer-valued floats)"]
 ASSUMPTIONS = ["NaN-free leaves"]
